@@ -69,4 +69,31 @@ where
     ) -> io::Result<()> {
         self.0.write_record(header, record)
     }
+
+    /// Shuts down the output stream.
+    ///
+    /// This flushes buffered data and, for BGZF-compressed output, writes the final block and
+    /// the EOF marker. It must be called before the writer is dropped to observe an error from
+    /// the destination: `Drop` discards it.
+    ///
+    /// # Examples
+    ///
+    /// ```
+    /// # use std::io;
+    /// use noodles_util::variant::io::{writer::Builder, Format};
+    /// use noodles_vcf as vcf;
+    ///
+    /// let mut writer = Builder::default()
+    ///     .set_format(Format::Vcf)
+    ///     .build_from_writer(io::sink());
+    ///
+    /// let header = vcf::Header::default();
+    /// writer.write_header(&header)?;
+    ///
+    /// writer.finish()?;
+    /// # Ok::<_, io::Error>(())
+    /// ```
+    pub fn finish(&mut self) -> io::Result<()> {
+        self.0.finish()
+    }
 }
